@@ -69,6 +69,12 @@ def generate(rng, tier):
         if rel.startswith("sub/"):
             tree["sub"] = {"t": "d"}
         tree[rel] = {"t": "f", "c": c}
+    if rng.random() < 0.12:
+        # a symbolic link to a regular file of the tree: its content is the content of the target
+        targets = [k for k, v in tree.items() if v["t"] == "f"]
+        t = rng.choice(targets)
+        link = os.path.join(os.path.dirname(t), "link_to_" + os.path.basename(t))
+        tree[link] = {"t": "l", "to": os.path.basename(t)}
     env["tree"] = tree
     r = rng.random()
     if r < 0.15:
@@ -247,6 +253,8 @@ def execute(sc, ctx):
                         f"c4 decode of {observe.c4_encode(raw)} -> {got!r}")
             return
     ctx.absorb_world(w)
+    if any(v["t"] == "l" for v in sc["world"]["tree"].values()):
+        ctx.probe("symlinked_file_hashed")
     ctx.sample = {"sizes": {k: len(core.content_bytes(v.get("c"))) for k, v in sc["world"]["tree"].items() if v["t"] == "f"},
                   "read_profile": profile, "ops": [o["argv"] for o in sc["ops"]][:4], "lib": sc["lib"][:3]}
 
